@@ -5,7 +5,7 @@
    statement by statement (base options, first matching entry, proposer-level overwrite,
    reset, update / remove / add of relays); [resolve_v2] / [resolve_v1] are the documented
    precedence.  Relay maps are key-unique association lists ([wf_config2]: Go maps). *)
-From Verif Require Import Lib.Base Model.C10_ExecConfig Proofs.C10.
+From Verif Require Import Lib.Base Model.C10_ExecConfig Proofs.C10 Proofs.C10_Json.
 From Coq Require Import Permutation.
 
 (* ------------------------------------------------------------------------------------------- *)
@@ -146,6 +146,55 @@ Proof. exact lookup_is_resolve. Qed.
 Print Assumptions C10_lookup_is_resolve.
 
 (* ------------------------------------------------------------------------------------------- *)
+(* Version dispatch: the "version" field alone selects the format (absent / 0: legacy, 2: v2,
+   anything else is refused), and an accepted document has the version of its format. *)
+Theorem C10_version_dispatch :
+  forall o,
+    unmarshal (JObj o) =
+      match field FVersion o with
+      | JNull | JNum 0 => option_map CV1 (config1_of_json (JObj o))
+      | JNum 2 => option_map CV2 (config2_of_json (JObj o))
+      | _ => None
+      end.
+Proof. exact unmarshal_dispatch. Qed.
+Print Assumptions C10_version_dispatch.
+
+Theorem C10_accepted_version :
+  forall j c, unmarshal j = Some c ->
+    exists o, j = JObj o /\
+      match c with
+      | CV1 _ => field FVersion o = JNull \/ field FVersion o = JNum 0
+      | CV2 _ => field FVersion o = JNum 2
+      end.
+Proof. exact unmarshal_version. Qed.
+Print Assumptions C10_accepted_version.
+
+(* ------------------------------------------------------------------------------------------- *)
+(* Marshal / unmarshal.  Leaf strings (hex, decimal digits, shopspring decimals, patterns) are
+   decoded by the harness with the project's own libraries; the model owns the structure
+   (omitempty, null / "" = absent, maps, arrays) and the numeric steps (ms <-> ns, ether <-> wei).
+   Every configuration unmarshal can produce is canonical ... *)
+Theorem C10_unmarshal_canonical :
+  forall j c, unmarshal j = Some c -> canon_config c.
+Proof. exact unmarshal_canon. Qed.
+Print Assumptions C10_unmarshal_canonical.
+
+(* ... every canonical configuration comes back from marshal -> unmarshal as itself ... *)
+Theorem C10_marshal_unmarshal :
+  forall c, canon_config c -> unmarshal (marshal c) = Some c.
+Proof. exact marshal_unmarshal. Qed.
+Print Assumptions C10_marshal_unmarshal.
+
+(* ... so a configuration survives the round trip with the same meaning: every validator gets
+   the same settings (or the same error) from the re-read configuration, with every fallback. *)
+Theorem C10_roundtrip_meaning :
+  forall j c, unmarshal j = Some c ->
+    exists c', unmarshal (marshal c) = Some c' /\
+               forall v fbfee fbgas, lookup c' v fbfee fbgas = lookup c v fbfee fbgas.
+Proof. exact roundtrip_meaning. Qed.
+Print Assumptions C10_roundtrip_meaning.
+
+(* ------------------------------------------------------------------------------------------- *)
 (* Non-vacuity: the example the tests do not have — a proposer-level value, a relay-level default
    and a proposer-relay override on one relay, a second (ignored) matching entry, a disabled
    inherited relay and a new relay. *)
@@ -180,4 +229,26 @@ Proof. reflexivity. Qed.
 
 Example C10_example_error :
   proposer_config_v2 (with_props ex_cfg [empty_proposer]) {| v_key := 9; v_accts := [] |} 99 1 = None.
+Proof. reflexivity. Qed.
+
+(* a document, its configuration, and the round trip *)
+Definition ex_doc : json :=
+  JObj [(FVersion, JNum 2); (FFee, JStr (LAddr 11)); (FGrace, JStr (LNum 1)); (FMin, JStr (LDec (5, (-1)%Z)));
+        (FRelays, JMap [(1, JObj [(FGas, JStr (LNum 100))]); (2, JObj [])]);
+        (FProposers, JArr [JObj [(FProposer, JStr (LRegex 5)); (FReset, JBool true);
+                                 (FRelays, JMap [(3, JObj [(FMin, JStr (LDec (123456789012345678, (-18)%Z)))])])]])].
+
+Example C10_example_roundtrip :
+  exists c, unmarshal ex_doc = Some (CV2 c) /\ wf_config2 c /\ e_min c = Some (5, 17%Z) /\
+            unmarshal (marshal (CV2 c)) = Some (CV2 c) /\
+            proposer_config_v2 c {| v_key := 1; v_accts := [5] |} 99 7 =
+              Some {| pc_fee := 11; pc_relays := [ {| rc_addr := 3; rc_pk := None; rc_fee := 11; rc_gas := 7;
+                                                      rc_grace := 1000000; rc_min := (123456789012345678, 0%Z) |} ] |}.
+Proof.
+  eexists. split; [reflexivity|]. split; [|split; [reflexivity|split; reflexivity]].
+  split; [repeat constructor; cbn; intuition discriminate|].
+  repeat constructor; cbn; intuition discriminate.
+Qed.
+
+Example C10_example_version_refused : unmarshal (JObj [(FVersion, JNum 1)]) = None.
 Proof. reflexivity. Qed.
